@@ -418,7 +418,6 @@ theorem fNary_mul_sound {A : Arith} (h : LawfulMul A) (env : List Val) (es : Lis
 structure CommOp (A : Arith) (op : NOp) (f : Int → Int → Int) (i : Int) (C : Int → Prop) : Prop where
   law : LawfulOp f i C
   hop : nop A op = f
-  hid : identOf op = .int i
   hbop : ∀ a b, bopOf A op a b = nbin A op a b
   hzero : ∀ c, zeroOf op = some c → ∃ z, c = .int z
   hev : ∀ env e0 rest, eval A env (.nary op (e0 :: rest)) =
@@ -436,9 +435,49 @@ theorem eval_gsum (h : CommOp A op f i C) (env : List Val) (l : List Expr) (h2 :
     rw [h.hev]
     exact evalFold_gsum h.law A op h.hop env e0 e1 rest
 
-theorem commGo_gen (h : CommOp A op f i C) (env : List Val) (rest : List Expr) :
+theorem nestedNary_some {op : NOp} {e : Expr} {es2 : List Expr}
+    (h : nestedNary op e = some es2) : e = .unary .paren (.nary op es2) := by
+  unfold nestedNary at h
+  split at h
+  · rename_i op2 es
+    by_cases ho : op2 = op
+    · subst ho; simp at h; subst h; rfl
+    · simp [ho] at h
+  · cases h
+
+theorem gfoldl_splice {f : Int → Int → Int} {i : Int} {C : Int → Prop} (h : LawfulOp f i C)
+    (a : Int) (ha : C a) (ns : List Int) :
+    List.foldl f a ns = f a (List.foldl f i ns) := by
+  have : f i a = a := by rw [h.comm, h.ident a ha]
+  rw [h.comm a, ← gfoldl_pull h, this]
+
+/-- a parenthesised nested list of the same operator (at least two operands) evaluates like its
+operands spliced in place -/
+theorem gsum_splice (h : CommOp A op f i C) (env : List Val) (X R es2 : List Expr)
+    (hl : 2 ≤ es2.length) :
+    gsum f i A env (X ++ .unary .paren (.nary op es2) :: R) = gsum f i A env (X ++ (es2 ++ R)) := by
+  have hn : numOf A env (.unary .paren (.nary op es2)) = gsum f i A env es2 := by
+    simp only [numOf, eval_paren, eval_gsum h env es2 hl]
+    cases gsum f i A env es2 <;> rfl
+  simp only [gsum, numsOf_append, numsOf, hn]
+  cases hx : numsOf A env X with
+  | none => simp
+  | some x =>
+    cases h2 : numsOf A env es2 with
+    | none => simp
+    | some ns =>
+      cases numsOf A env R with
+      | none => simp
+      | some r =>
+        simp only [Option.map_some, List.foldl_append, List.foldl]
+        rw [gfoldl_splice h.law _ (gfoldl_C h.law x i h.law.ci) ns]
+
+theorem commGo_gen (h : CommOp A op f i C) (j : Int) (hj : identOf op = .int j)
+    (env : List Val) (rest : List Expr) :
     ∀ (pre : List Expr) (k : Option Val) (post : List Expr) (res : CommRes),
-      (∀ e ∈ rest, nestedNary op e = none) → (∀ e ∈ rest, constNonNum e = false) →
+      (j = i ∨ Expr.const (.int j) ∉ rest) →
+      (∀ e ∈ rest, ∀ es2, nestedNary op e = some es2 → 2 ≤ es2.length) →
+      (∀ e ∈ rest, constNonNum e = false) →
       (∀ v, k = some v → ∃ a, v = .int a) → (k = none → post = []) →
       commGo A op pre k post rest = .ok res →
       (∃ pre' k' post', res = .list pre' k' post' ∧ (∀ v, k' = some v → ∃ a, v = .int a) ∧
@@ -447,13 +486,18 @@ theorem commGo_gen (h : CommOp A op f i C) (env : List Val) (rest : List Expr) :
       (∃ z, res = .zero (.int z) ∧ zeroOf op = some (.int z) ∧ Expr.const (.int z) ∈ rest) := by
   induction rest with
   | nil =>
-    intro pre k post res _ _ hk hp hgo
+    intro pre k post res _ _ _ hk hp hgo
     simp only [commGo] at hgo
     cases hgo
     exact .inl ⟨pre, k, post, rfl, hk, hp, rfl⟩
   | cons e rest ih =>
-    intro pre k post res hnn hck hk hp hgo
-    have hnn' : ∀ e ∈ rest, nestedNary op e = none := fun x hx => hnn x (List.mem_cons_of_mem _ hx)
+    intro pre k post res hji hnn hck hk hp hgo
+    have hji' : j = i ∨ Expr.const (.int j) ∉ rest := by
+      rcases hji with h1 | h1
+      · exact .inl h1
+      · exact .inr (fun hx => h1 (List.mem_cons_of_mem _ hx))
+    have hnn' : ∀ e ∈ rest, ∀ es2, nestedNary op e = some es2 → 2 ≤ es2.length :=
+      fun x hx => hnn x (List.mem_cons_of_mem _ hx)
     have hck' : ∀ e ∈ rest, constNonNum e = false := fun x hx => hck x (List.mem_cons_of_mem _ hx)
     have lift : ∀ {X : Prop}, (X ∨ ∃ z, res = .zero (.int z) ∧ zeroOf op = some (.int z) ∧
         Expr.const (.int z) ∈ rest) → (X ∨ ∃ z, res = .zero (.int z) ∧ zeroOf op = some (.int z) ∧
@@ -462,6 +506,35 @@ theorem commGo_gen (h : CommOp A op f i C) (env : List Val) (rest : List Expr) :
       rcases hx with hx | ⟨z, h1, h2, h3⟩
       · exact .inl hx
       · exact .inr ⟨z, h1, h2, List.mem_cons_of_mem _ h3⟩
+    cases hne : nestedNary op e with
+    | some es2 =>
+      have hl := hnn _ (List.mem_cons_self ..) es2 hne
+      have hee := nestedNary_some hne
+      subst hee
+      simp only [commGo, hne] at hgo
+      refine lift ?_
+      cases k with
+      | none =>
+        simp only at hgo
+        have hpost := hp rfl
+        subst hpost
+        rcases ih (pre ++ es2) none [] res hji' hnn' hck' hk (fun _ => rfl) hgo with
+          ⟨p', k', q', hr, hk', hp', hd⟩ | hzr
+        · refine .inl ⟨p', k', q', hr, hk', hp', ?_⟩
+          rw [hd]
+          have := gsum_splice h env pre rest es2 hl
+          simpa [curList, kList] using this.symm
+        · exact .inr hzr
+      | some v =>
+        simp only at hgo
+        rcases ih pre (some v) (post ++ es2) res hji' hnn' hck' hk (fun hh => by cases hh) hgo with
+          ⟨p', k', q', hr, hk', hp', hd⟩ | hzr
+        · refine .inl ⟨p', k', q', hr, hk', hp', ?_⟩
+          rw [hd]
+          have := gsum_splice h env (pre ++ Expr.const v :: post) rest es2 hl
+          simpa [curList, kList] using this.symm
+        · exact .inr hzr
+    | none =>
     by_cases hc : isConst e = true
     · cases e with
       | const c =>
@@ -471,12 +544,17 @@ theorem commGo_gen (h : CommOp A op f i C) (env : List Val) (rest : List Expr) :
         · simp only [hzc, if_true] at hgo
           cases hgo
           exact .inr ⟨n, rfl, hzc, List.mem_cons_self ..⟩
-        · simp only [hzc, if_false, h.hid] at hgo
-          by_cases hz : n = i
+        · simp only [hzc, if_false, hj] at hgo
+          by_cases hz : n = j
           · subst hz
+            have hni : n = i := by
+              rcases hji with h1 | h1
+              · exact h1
+              · exact absurd (List.mem_cons_self ..) h1
+            subst hni
             simp only [if_true] at hgo
             refine lift ?_
-            rcases ih pre k post res hnn' hck' hk hp hgo with ⟨p', k', q', hr, hk', hp', hd⟩ | hzr
+            rcases ih pre k post res hji' hnn' hck' hk hp hgo with ⟨p', k', q', hr, hk', hp', hd⟩ | hzr
             · refine .inl ⟨p', k', q', hr, hk', hp', ?_⟩
               rw [hd]
               have e1 : curList pre k post (Expr.const (Val.int n) :: rest) =
@@ -485,7 +563,7 @@ theorem commGo_gen (h : CommOp A op f i C) (env : List Val) (rest : List Expr) :
               rw [e1, gsum_drop h.law]
               simp [curList]
             · exact .inr hzr
-          · have hne : ¬ (Val.int n = Val.int i) := by intro hh; cases hh; exact hz rfl
+          · have hne : ¬ (Val.int n = Val.int j) := by intro hh; cases hh; exact hz rfl
             simp only [hne, if_false] at hgo
             refine lift ?_
             cases k with
@@ -493,7 +571,7 @@ theorem commGo_gen (h : CommOp A op f i C) (env : List Val) (rest : List Expr) :
               simp only at hgo
               have hpost := hp rfl
               subst hpost
-              rcases ih pre (some (.int n)) [] res hnn' hck' (fun v hv => by cases hv; exact ⟨n, rfl⟩)
+              rcases ih pre (some (.int n)) [] res hji' hnn' hck' (fun v hv => by cases hv; exact ⟨n, rfl⟩)
                   (fun hh => by cases hh) hgo with ⟨p', k', q', hr, hk', hp', hd⟩ | hzr
               · refine .inl ⟨p', k', q', hr, hk', hp', ?_⟩
                 rw [hd]
@@ -502,7 +580,7 @@ theorem commGo_gen (h : CommOp A op f i C) (env : List Val) (rest : List Expr) :
             | some v =>
               obtain ⟨a, rfl⟩ := hk v rfl
               simp only [h.hbop, nbin, toNum_int, h.hop] at hgo
-              rcases ih pre (some (.int (f a n))) post res hnn' hck'
+              rcases ih pre (some (.int (f a n))) post res hji' hnn' hck'
                   (fun v hv => by cases hv; exact ⟨_, rfl⟩) (fun hh => by cases hh) hgo with
                 ⟨p', k', q', hr, hk', hp', hd⟩ | hzr
               · refine .inl ⟨p', k', q', hr, hk', hp', ?_⟩
@@ -512,14 +590,14 @@ theorem commGo_gen (h : CommOp A op f i C) (env : List Val) (rest : List Expr) :
               · exact .inr hzr
       | _ => simp [isConst] at hc
     · have hc' : isConst e = false := by simpa using hc
-      rw [commGo_nonconst A op pre k post rest e hc' (hnn _ (List.mem_cons_self ..))] at hgo
+      rw [commGo_nonconst A op pre k post rest e hc' hne] at hgo
       refine lift ?_
       cases k with
       | none =>
         simp only at hgo
         have hpost := hp rfl
         subst hpost
-        rcases ih (pre ++ [e]) none [] res hnn' hck' hk (fun _ => rfl) hgo with
+        rcases ih (pre ++ [e]) none [] res hji' hnn' hck' hk (fun _ => rfl) hgo with
           ⟨p', k', q', hr, hk', hp', hd⟩ | hzr
         · refine .inl ⟨p', k', q', hr, hk', hp', ?_⟩
           rw [hd]
@@ -527,12 +605,112 @@ theorem commGo_gen (h : CommOp A op f i C) (env : List Val) (rest : List Expr) :
         · exact .inr hzr
       | some v =>
         simp only at hgo
-        rcases ih pre (some v) (post ++ [e]) res hnn' hck' hk (fun hh => by cases hh) hgo with
+        rcases ih pre (some v) (post ++ [e]) res hji' hnn' hck' hk (fun hh => by cases hh) hgo with
           ⟨p', k', q', hr, hk', hp', hd⟩ | hzr
         · refine .inl ⟨p', k', q', hr, hk', hp', ?_⟩
           rw [hd]
           simp [curList, kList]
         · exact .inr hzr
+
+/-- number of operands `commutative` keeps when no identity constant is dropped -/
+theorem commGo_len (A : Arith) (op : NOp) (rest : List Expr) :
+    ∀ (pre : List Expr) (k : Option Val) (post pre' : List Expr) (k' : Option Val)
+      (post' : List Expr),
+      (∀ e ∈ rest, ∀ es2, nestedNary op e = some es2 → 2 ≤ es2.length) →
+      Expr.const (identOf op) ∉ rest →
+      commGo A op pre k post rest = .ok (.list pre' k' post') →
+      pre.length + post.length + (rest.filter (fun e => !isConst e)).length ≤
+        pre'.length + post'.length ∧
+      (k' = none → k = none ∧ ∀ e ∈ rest, isConst e = false) := by
+  induction rest with
+  | nil =>
+    intro pre k post pre' k' post' _ _ hgo
+    simp only [commGo] at hgo
+    cases hgo
+    exact ⟨by simp, fun hk => ⟨hk, fun _ hx => by cases hx⟩⟩
+  | cons e rest ih =>
+    intro pre k post pre' k' post' hnn hni hgo
+    have hnn' : ∀ e ∈ rest, ∀ es2, nestedNary op e = some es2 → 2 ≤ es2.length :=
+      fun x hx => hnn x (List.mem_cons_of_mem _ hx)
+    have hni' : Expr.const (identOf op) ∉ rest := fun hx => hni (List.mem_cons_of_mem _ hx)
+    cases hne : nestedNary op e with
+    | some es2 =>
+      have hl := hnn _ (List.mem_cons_self ..) es2 hne
+      have hee := nestedNary_some hne
+      subst hee
+      simp only [commGo, hne] at hgo
+      cases k with
+      | none =>
+        simp only at hgo
+        obtain ⟨h1, h2⟩ := ih _ _ _ _ _ _ hnn' hni' hgo
+        refine ⟨?_, fun hk => ⟨rfl, ?_⟩⟩
+        · simp only [List.filter_cons, isConst, Bool.not_false, if_true, List.length_cons,
+            List.length_append] at h1 ⊢
+          omega
+        · intro x hx
+          rcases List.mem_cons.mp hx with hx | hx
+          · subst hx; rfl
+          · exact (h2 hk).2 x hx
+      | some v =>
+        simp only at hgo
+        obtain ⟨h1, h2⟩ := ih _ _ _ _ _ _ hnn' hni' hgo
+        refine ⟨?_, fun hk => ?_⟩
+        · simp only [List.filter_cons, isConst, Bool.not_false, if_true, List.length_cons,
+            List.length_append] at h1 ⊢
+          omega
+        · have := (h2 hk).1
+          cases this
+    | none =>
+    by_cases hc : isConst e = true
+    · cases e with
+      | const c =>
+        rw [commGo_const] at hgo
+        by_cases hzc : zeroOf op = some c
+        · simp only [hzc, if_true] at hgo; cases hgo
+        · have hci : ¬ c = identOf op := by
+            intro hh; subst hh; exact hni (List.mem_cons_self ..)
+          simp only [hzc, hci, if_false] at hgo
+          cases k with
+          | none =>
+            simp only at hgo
+            obtain ⟨h1, h2⟩ := ih _ _ _ _ _ _ hnn' hni' hgo
+            refine ⟨by simpa [isConst] using h1, fun hk => ?_⟩
+            have := (h2 hk).1
+            cases this
+          | some a =>
+            simp only at hgo
+            cases hb : bopOf A op a c with
+            | none => simp [hb] at hgo
+            | some r =>
+              simp only [hb] at hgo
+              obtain ⟨h1, h2⟩ := ih _ _ _ _ _ _ hnn' hni' hgo
+              refine ⟨by simpa [isConst] using h1, fun hk => ?_⟩
+              have := (h2 hk).1
+              cases this
+      | _ => simp [isConst] at hc
+    · have hc' : isConst e = false := by simpa using hc
+      rw [commGo_nonconst A op pre k post rest e hc' hne] at hgo
+      cases k with
+      | none =>
+        simp only at hgo
+        obtain ⟨h1, h2⟩ := ih _ _ _ _ _ _ hnn' hni' hgo
+        refine ⟨?_, fun hk => ⟨rfl, ?_⟩⟩
+        · simp only [List.filter_cons, hc', Bool.not_false, if_true, List.length_cons,
+            List.length_append, List.length_nil] at h1 ⊢
+          omega
+        · intro x hx
+          rcases List.mem_cons.mp hx with hx | hx
+          · subst hx; exact hc'
+          · exact (h2 hk).2 x hx
+      | some v =>
+        simp only at hgo
+        obtain ⟨h1, h2⟩ := ih _ _ _ _ _ _ hnn' hni' hgo
+        refine ⟨?_, fun hk => ?_⟩
+        · simp only [List.filter_cons, hc', Bool.not_false, if_true, List.length_cons,
+            List.length_append, List.length_nil] at h1 ⊢
+          omega
+        · have := (h2 hk).1
+          cases this
 
 /-- the final step of `fNary`: a one-element result is the element itself -/
 def wrapN (op : NOp) : List Expr → Expr
@@ -543,9 +721,12 @@ theorem wrapN_two (op : NOp) (l : List Expr) (h2 : 2 ≤ l.length) : wrapN op l 
   match l, h2 with
   | e0 :: e1 :: rest, _ => rfl
 
-theorem commutative_sound (h : CommOp A op f i C) (env : List Val) (es es' : List Expr)
-    (h2 : 2 ≤ es.length) (hnn : ∀ e ∈ es, nestedNary op e = none)
+theorem commutative_sound (h : CommOp A op f i C) (j : Int) (hj : identOf op = .int j)
+    (env : List Val) (es es' : List Expr)
+    (h2 : 2 ≤ es.length)
+    (hnn : ∀ e ∈ es, ∀ es2, nestedNary op e = some es2 → 2 ≤ es2.length)
     (hck : ∀ e ∈ es, constNonNum e = false)
+    (hji : j = i ∨ (Expr.const (.int j) ∉ es ∧ ∃ e ∈ es, isConst e = false))
     (habs : ∀ z, zeroOf op = some (.int z) → Expr.const (.int z) ∈ es →
       (∀ a, f a z = z) ∧ ∀ e ∈ es, ∃ n, numOf A env e = some n)
     (hf : commutative A op es = .ok es') :
@@ -555,9 +736,33 @@ theorem commutative_sound (h : CommOp A op f i C) (env : List Val) (es es' : Lis
   cases hgo : commGo A op [] none [] es with
   | error x => simp [hgo] at hf
   | ok res =>
-    rcases commGo_gen h env es [] none [] res hnn hck (fun v hv => by cases hv) (fun _ => rfl) hgo
+    have hji1 : j = i ∨ Expr.const (.int j) ∉ es := by
+      rcases hji with h1 | h1
+      · exact .inl h1
+      · exact .inr h1.1
+    rcases commGo_gen h j hj env es [] none [] res hji1 hnn hck (fun v hv => by cases hv)
+        (fun _ => rfl) hgo
       with ⟨p', k', q', hr, hk', hp', hd⟩ | ⟨z, hr, hz, hm⟩
     · subst hr
+      -- when the fold identity is not the real one, no fix-up applies: two operands are kept
+      have hgood : j = i ∨ 2 ≤ p'.length + q'.length + (kList k').length := by
+        rcases hji with h1 | ⟨hnot, e, he, hec⟩
+        · exact .inl h1
+        · right
+          obtain ⟨l1, l2⟩ := commGo_len A op es [] none [] p' k' q' hnn (by rw [hj]; exact hnot) hgo
+          have hpos : 0 < (es.filter (fun e => !isConst e)).length :=
+            List.length_pos_of_mem (List.mem_filter.mpr ⟨he, by simp [hec]⟩)
+          cases k' with
+          | none =>
+            have hall := (l2 rfl).2
+            have : es.filter (fun e => !isConst e) = es :=
+              List.filter_eq_self.mpr (fun x hx => by simp [hall x hx])
+            rw [this] at l1
+            simp only [kList, List.length_nil, List.length_nil] at l1 ⊢
+            omega
+          | some v =>
+            simp only [kList, List.length_cons, List.length_nil] at l1 ⊢
+            omega
       have hd' : gsum f i A env (curList p' k' q' []) = gsum f i A env es := by
         rw [hd]; simp [curList, kList]
       rw [← hd']
@@ -566,39 +771,48 @@ theorem commutative_sound (h : CommOp A op f i C) (env : List Val) (es es' : Lis
       | none =>
         have hq := hp' rfl
         subst hq
-        match p', hf with
-        | [], hf =>
-          simp only [h.hid] at hf
-          cases hf
-          simp [wrapN, eval, curList, kList, gsum, numsOf]
-        | [e], hf =>
-          simp only [h.hid] at hf
-          cases hf
-          rw [wrapN_two _ _ (by simp), eval_gsum h env _ (by simp)]
-          have := gsum_drop h.law A env [e] []
-          simp only [List.append_nil, List.cons_append, List.nil_append] at this
-          rw [this]
-          simp [curList, kList]
-        | a :: b :: t, hf =>
+        match p', hf, hgood with
+        | [], hf, hgood =>
+          rcases hgood with hji2 | hl
+          · subst hji2
+            simp only [hj] at hf
+            cases hf
+            simp [wrapN, eval, curList, kList, gsum, numsOf]
+          · simp [kList] at hl
+        | [e], hf, hgood =>
+          rcases hgood with hji2 | hl
+          · subst hji2
+            simp only [hj] at hf
+            cases hf
+            rw [wrapN_two _ _ (by simp), eval_gsum h env _ (by simp)]
+            have := gsum_drop h.law A env [e] []
+            simp only [List.append_nil, List.cons_append, List.nil_append] at this
+            rw [this]
+            simp [curList, kList]
+          · simp [kList] at hl
+        | a :: b :: t, hf, _ =>
           cases hf
           rw [wrapN_two _ _ (by simp), eval_gsum h env _ (by simp)]
           simp [curList, kList]
       | some v =>
         obtain ⟨a, rfl⟩ := hk' v rfl
-        match p', q', hf with
-        | [], [], hf =>
-          simp only [h.hbop, h.hid, nbin, toNum_int, h.hop] at hf
-          cases hf
-          simp [wrapN, eval, curList, kList, gsum, numsOf, numOf, List.foldl]
-        | [], y :: q, hf =>
+        match p', q', hf, hgood with
+        | [], [], hf, hgood =>
+          rcases hgood with hji2 | hl
+          · subst hji2
+            simp only [h.hbop, hj, nbin, toNum_int, h.hop] at hf
+            cases hf
+            simp [wrapN, eval, curList, kList, gsum, numsOf, numOf, List.foldl]
+          · simp [kList] at hl
+        | [], y :: q, hf, _ =>
           cases hf
           rw [wrapN_two _ _ (by simp), eval_gsum h env _ (by simp)]
           simp [curList, kList]
-        | [x], q, hf =>
+        | [x], q, hf, _ =>
           cases hf
           rw [wrapN_two _ _ (by simp), eval_gsum h env _ (by simp)]
           simp [curList, kList]
-        | x :: y :: p, q, hf =>
+        | x :: y :: p, q, hf, _ =>
           cases hf
           rw [wrapN_two _ _ (by simp), eval_gsum h env _ (by simp)]
           simp [curList, kList]
@@ -610,6 +824,7 @@ theorem commutative_sound (h : CommOp A op f i C) (env : List Val) (es es' : Lis
       simp [wrapN, eval]
 
 end comm
+
 
 /-! ## `|` and `^` on 64-bit integers -/
 
@@ -637,17 +852,17 @@ theorem bitxor_lawful (A : Arith) : LawfulOp (nop A .bitxor) 0 canon64 :=
      simp only [nop, this, BitVec.xor_zero]; exact ha⟩
 
 theorem bitor_commOp (A : Arith) : CommOp A .bitor (nop A .bitor) 0 canon64 :=
-  ⟨bitor_lawful A, rfl, rfl, fun _ _ => rfl,
+  ⟨bitor_lawful A, rfl, fun _ _ => rfl,
    fun c hc => by simp only [zeroOf, Option.some.injEq] at hc; exact ⟨_, hc.symm⟩,
    fun env e0 rest => by simp only [eval]; cases eval A env e0 <;> rfl⟩
 
 theorem bitxor_commOp (A : Arith) : CommOp A .bitxor (nop A .bitxor) 0 canon64 :=
-  ⟨bitxor_lawful A, rfl, rfl, fun _ _ => rfl,
+  ⟨bitxor_lawful A, rfl, fun _ _ => rfl,
    fun c hc => by simp [zeroOf] at hc,
    fun env e0 rest => by simp only [eval]; cases eval A env e0 <;> rfl⟩
 
 theorem add_commOp {A : Arith} (h : LawfulAdd A) : CommOp A .add A.add 0 (fun _ => True) :=
-  ⟨⟨h.assoc, h.comm, trivial, fun _ _ => trivial, fun a _ => h.zero a⟩, rfl, rfl, fun _ _ => rfl,
+  ⟨⟨h.assoc, h.comm, trivial, fun _ _ => trivial, fun a _ => h.zero a⟩, rfl, fun _ _ => rfl,
    fun c hc => by simp [zeroOf] at hc,
    fun env e0 rest => by simp only [eval]; cases eval A env e0 <;> rfl⟩
 
@@ -665,7 +880,7 @@ theorem fNary_match (op : NOp) (es' : List Expr) (e' : Expr)
 takes for the absorbing element of `|`, is not an operand (KF-C30-5). -/
 theorem fNary_bit_sound (A : Arith) (op : NOp) (hop : op = .bitor ∨ op = .bitxor)
     (env : List Val) (es : List Expr) (e' : Expr) (h2 : 2 ≤ es.length)
-    (hnn : ∀ e ∈ es, nestedNary op e = none)
+    (hnn : ∀ e ∈ es, ∀ es2, nestedNary op e = some es2 → 2 ≤ es2.length)
     (h32 : Expr.const (.int allones) ∉ es)
     (hf : fNary A op es = .ok e') : eval A env e' = eval A env (.nary op es) := by
   match es, h2 with
@@ -683,7 +898,7 @@ theorem fNary_bit_sound (A : Arith) (op : NOp) (hop : op = .bitor ∨ op = .bitx
         | ok es' =>
           rw [hc] at hf
           rw [fNary_match _ _ _ hf]
-          refine commutative_sound (bitor_commOp A) env _ es' h2 hnn hck' ?_ hc
+          refine commutative_sound (bitor_commOp A) 0 rfl env _ es' h2 hnn hck' (.inl rfl) ?_ hc
           intro z hz hm
           simp only [zeroOf, Option.some.injEq, Val.int.injEq] at hz
           subst hz
@@ -701,7 +916,7 @@ theorem fNary_bit_sound (A : Arith) (op : NOp) (hop : op = .bitor ∨ op = .bitx
         | ok es' =>
           rw [hc] at hf
           rw [fNary_match _ _ _ hf]
-          refine commutative_sound (bitxor_commOp A) env _ es' h2 hnn hck' ?_ hc
+          refine commutative_sound (bitxor_commOp A) 0 rfl env _ es' h2 hnn hck' (.inl rfl) ?_ hc
           intro z hz hm
           simp [zeroOf] at hz
       · simp [hck] at hf
@@ -814,5 +1029,338 @@ theorem fNary_cat_sound (A : Arith) (env : List Val) (es : List Expr) (e' : Expr
       · subst hs; simp [eval, evalCat, asStr]
       · simp [kList] at h1
     | a :: b :: t => rw [hfc] at he'; subst he'; simp [wrapN, eval_cat]
+
+/-- `+`/`-` including the flattening of parenthesised nested `+` lists -/
+theorem fNary_add_sound_flat {A : Arith} (h : LawfulAdd A) (env : List Val) (es : List Expr)
+    (e' : Expr) (h2 : 2 ≤ es.length)
+    (hnn : ∀ e ∈ es, ∀ es2, nestedNary .add e = some es2 → 2 ≤ es2.length)
+    (hf : fNary A .add es = .ok e') : eval A env e' = eval A env (.nary .add es) := by
+  match es, h2 with
+  | e0 :: e1 :: rest, h2 =>
+    simp only [fNary] at hf
+    by_cases hck : ckMath (e0 :: e1 :: rest) = true
+    · simp only [hck, if_true] at hf
+      have hck' : ∀ e ∈ e0 :: e1 :: rest, constNonNum e = false := by
+        intro e he
+        have := List.all_eq_true.mp hck e he
+        simpa using this
+      cases hc : commutative A .add (e0 :: e1 :: rest) with
+      | error x => simp [hc] at hf
+      | ok es' =>
+        rw [hc] at hf
+        rw [fNary_match _ _ _ hf]
+        refine commutative_sound (add_commOp h) 0 rfl env _ es' h2 hnn hck' (.inl rfl) ?_ hc
+        intro z hz hm
+        simp [zeroOf] at hz
+    · simp [hck] at hf
+
+/-! ## `&` on 64-bit integers: the real identity is -1, the fold identity `0xffffffff` is not -/
+
+theorem bv_neg_one : bv (-1) = BitVec.allOnes 64 := by decide
+
+theorem bitand_lawful (A : Arith) : LawfulOp (nop A .bitand) (-1) canon64 :=
+  ⟨fun a b c => by simp only [nop, bv_toInt, BitVec.and_assoc],
+   fun a b => by simp only [nop, BitVec.and_comm],
+   by simp only [canon64, bv_neg_one]; decide,
+   fun a b => by simp only [canon64, nop, bv_toInt],
+   fun a ha => by simp only [nop, bv_neg_one, BitVec.and_allOnes]; exact ha⟩
+
+theorem bitand_commOp (A : Arith) : CommOp A .bitand (nop A .bitand) (-1) canon64 :=
+  ⟨bitand_lawful A, rfl, fun _ _ => rfl,
+   fun c hc => by simp only [zeroOf, Option.some.injEq] at hc; exact ⟨_, hc.symm⟩,
+   fun env e0 rest => by simp only [eval]; cases eval A env e0 <;> rfl⟩
+
+theorem bitand_zero (A : Arith) (a : Int) : nop A .bitand a 0 = 0 := by
+  have : bv 0 = 0#64 := by simp [bv]
+  simp [nop, this]
+
+/-- `&`: sound when `0xffffffff` (the fold identity, KF-C30-5) is not an operand and not all
+operands are constants — then `commutative` neither drops an "identity" nor applies a fix-up. -/
+theorem fNary_bitand_sound (A : Arith) (env : List Val) (es : List Expr) (e' : Expr)
+    (h2 : 2 ≤ es.length)
+    (hnn : ∀ e ∈ es, ∀ es2, nestedNary .bitand e = some es2 → 2 ≤ es2.length)
+    (h32 : Expr.const (.int allones) ∉ es) (hnc : ∃ e ∈ es, isConst e = false)
+    (hz : Expr.const (.int 0) ∈ es → ∀ e ∈ es, ∃ n, numOf A env e = some n)
+    (hf : fNary A .bitand es = .ok e') : eval A env e' = eval A env (.nary .bitand es) := by
+  match es, h2 with
+  | e0 :: e1 :: rest, h2 =>
+    simp only [fNary] at hf
+    by_cases hck : ckMath (e0 :: e1 :: rest) = true
+    · simp only [hck, if_true] at hf
+      have hck' : ∀ e ∈ e0 :: e1 :: rest, constNonNum e = false := by
+        intro e he
+        have := List.all_eq_true.mp hck e he
+        simpa using this
+      cases hc : commutative A .bitand (e0 :: e1 :: rest) with
+      | error x => simp [hc] at hf
+      | ok es' =>
+        rw [hc] at hf
+        rw [fNary_match _ _ _ hf]
+        refine commutative_sound (bitand_commOp A) allones rfl env _ es' h2 hnn hck'
+          (.inr ⟨h32, hnc⟩) ?_ hc
+        intro z hzz hm
+        simp only [zeroOf, Option.some.injEq, Val.int.injEq] at hzz
+        subst hzz
+        exact ⟨bitand_zero A, hz hm⟩
+    · simp [hck] at hf
+
+/-! ## `and` / `or` on boolean operands -/
+
+/-- the operand evaluates to a boolean -/
+def isB (A : Arith) (env : List Val) (e : Expr) : Prop := ∃ b, eval A env e = some (.bool b)
+
+/-- truth value of an operand (false when it is not `true`) -/
+def tv (A : Arith) (env : List Val) (e : Expr) : Bool :=
+  match eval A env e with
+  | some (.bool true) => true
+  | _ => false
+
+/-- order-free value of a boolean operand list -/
+def bsum (g : Bool → Bool → Bool) (i : Bool) (A : Arith) (env : List Val) (l : List Expr) : Bool :=
+  l.foldr (fun e acc => g (tv A env e) acc) i
+
+structure BoolOp (A : Arith) (op : NOp) (g : Bool → Bool → Bool) (i : Bool) : Prop where
+  hz : zeroOf op = some (.bool !i)
+  hid : identOf op = .bool i
+  assoc : ∀ a b c, g (g a b) c = g a (g b c)
+  comm : ∀ a b, g a b = g b a
+  ident : ∀ a, g a i = a
+  absorb : ∀ a, g a (!i) = !i
+  hev : ∀ env l, l ≠ [] → (∀ e ∈ l, isB A env e) →
+    eval A env (.nary op l) = some (.bool (bsum g i A env l))
+
+theorem tv_const (A : Arith) (env : List Val) (b : Bool) : tv A env (.const (.bool b)) = b := by
+  cases b <;> simp [tv, eval]
+
+theorem isB_const {A : Arith} {env : List Val} {c : Val} (h : isB A env (.const c)) :
+    ∃ b, c = .bool b := by
+  obtain ⟨b, hb⟩ := h
+  simp only [eval, Option.some.injEq] at hb
+  exact ⟨b, hb⟩
+
+theorem evalAnd_bsum (A : Arith) (env : List Val) (l : List Expr) (hne : l ≠ [])
+    (hb : ∀ e ∈ l, isB A env e) :
+    evalAnd A env l = some (.bool (bsum (· && ·) true A env l)) := by
+  induction l with
+  | nil => exact absurd rfl hne
+  | cons e rest ih =>
+    obtain ⟨b, he⟩ := hb e (List.mem_cons_self ..)
+    have hb' : ∀ e ∈ rest, isB A env e := fun x hx => hb x (List.mem_cons_of_mem _ hx)
+    simp only [evalAnd, he, bsum, List.foldr, tv]
+    cases b with
+    | false => simp
+    | true =>
+      cases rest with
+      | nil => simp
+      | cons y r =>
+        simp only
+        rw [ih (by simp) hb']
+        simp only [bsum, List.foldr, Bool.true_and]
+        rfl
+
+theorem evalOr_bsum (A : Arith) (env : List Val) (l : List Expr) (hne : l ≠ [])
+    (hb : ∀ e ∈ l, isB A env e) :
+    evalOr A env l = some (.bool (bsum (· || ·) false A env l)) := by
+  induction l with
+  | nil => exact absurd rfl hne
+  | cons e rest ih =>
+    obtain ⟨b, he⟩ := hb e (List.mem_cons_self ..)
+    have hb' : ∀ e ∈ rest, isB A env e := fun x hx => hb x (List.mem_cons_of_mem _ hx)
+    simp only [evalOr, he, bsum, List.foldr, tv]
+    cases b with
+    | true => simp
+    | false =>
+      cases rest with
+      | nil => simp
+      | cons y r =>
+        simp only
+        rw [ih (by simp) hb']
+        simp only [bsum, List.foldr, Bool.false_or]
+        rfl
+
+theorem and_boolOp (A : Arith) : BoolOp A .and (· && ·) true :=
+  ⟨rfl, rfl, by decide, by decide, by decide, by decide,
+   fun env l hne hb => by simp only [eval]; exact evalAnd_bsum A env l hne hb⟩
+
+theorem or_boolOp (A : Arith) : BoolOp A .or (· || ·) false :=
+  ⟨rfl, rfl, by decide, by decide, by decide, by decide,
+   fun env l hne hb => by simp only [eval]; exact evalOr_bsum A env l hne hb⟩
+
+section boolcomm
+variable {A : Arith} {op : NOp} {g : Bool → Bool → Bool} {i : Bool}
+
+theorem bsum_append (h : BoolOp A op g i) (env : List Val) (xs ys : List Expr) :
+    bsum g i A env (xs ++ ys) = g (bsum g i A env xs) (bsum g i A env ys) := by
+  induction xs with
+  | nil => simp only [List.nil_append, bsum, List.foldr]; rw [h.comm, h.ident]
+  | cons x xs ih =>
+    simp only [bsum, List.cons_append, List.foldr] at ih ⊢
+    rw [ih, h.assoc]
+
+theorem bsum_absorb (h : BoolOp A op g i) (env : List Val) (l : List Expr)
+    (hm : Expr.const (.bool !i) ∈ l) : bsum g i A env l = !i := by
+  induction l with
+  | nil => cases hm
+  | cons e rest ih =>
+    simp only [bsum, List.foldr]
+    rcases List.mem_cons.mp hm with hx | hx
+    · subst hx; rw [tv_const, h.comm, h.absorb]
+    · have := ih hx
+      simp only [bsum] at this
+      rw [this, h.absorb]
+
+theorem tv_nested (h : BoolOp A op g i) (env : List Val) (es2 : List Expr)
+    (hl : 2 ≤ es2.length) (hb : ∀ x ∈ es2, isB A env x) :
+    tv A env (.unary .paren (.nary op es2)) = bsum g i A env es2 := by
+  have hne : es2 ≠ [] := by intro hh; subst hh; simp at hl
+  simp only [tv, eval_paren, h.hev env es2 hne hb]
+  cases bsum g i A env es2 <;> rfl
+
+theorem commGo_bool (h : BoolOp A op g i) (env : List Val) (rest : List Expr) :
+    ∀ (pre : List Expr) (res : CommRes),
+      (∀ e ∈ rest, ∀ es2, nestedNary op e = some es2 →
+        2 ≤ es2.length ∧ ∀ x ∈ es2, isB A env x) →
+      (∀ e ∈ rest, isB A env e) → (∀ e ∈ pre, isB A env e) →
+      commGo A op pre none [] rest = .ok res →
+      (∃ pre', res = .list pre' none [] ∧ (∀ e ∈ pre', isB A env e) ∧
+        bsum g i A env pre' = bsum g i A env (pre ++ rest)) ∨
+      (res = .zero (.bool !i) ∧ Expr.const (.bool !i) ∈ rest) := by
+  induction rest with
+  | nil =>
+    intro pre res _ _ hpre hgo
+    simp only [commGo] at hgo
+    cases hgo
+    exact .inl ⟨pre, rfl, hpre, by simp⟩
+  | cons e rest ih =>
+    intro pre res hnn hb hpre hgo
+    have hnn' : ∀ e ∈ rest, ∀ es2, nestedNary op e = some es2 →
+        2 ≤ es2.length ∧ ∀ x ∈ es2, isB A env x := fun x hx => hnn x (List.mem_cons_of_mem _ hx)
+    have hb' : ∀ e ∈ rest, isB A env e := fun x hx => hb x (List.mem_cons_of_mem _ hx)
+    cases hne : nestedNary op e with
+    | some es2 =>
+      obtain ⟨hl, hb2⟩ := hnn _ (List.mem_cons_self ..) es2 hne
+      have hee := nestedNary_some hne
+      subst hee
+      simp only [commGo, hne] at hgo
+      have hpre2 : ∀ x ∈ pre ++ es2, isB A env x := by
+        intro x hx
+        rcases List.mem_append.mp hx with h1 | h1
+        · exact hpre x h1
+        · exact hb2 x h1
+      rcases ih (pre ++ es2) res hnn' hb' hpre2 hgo with ⟨p', hr, hbp, hd⟩ | ⟨hr, hm⟩
+      · refine .inl ⟨p', hr, hbp, ?_⟩
+        rw [hd, bsum_append h, bsum_append h, bsum_append h]
+        have : bsum g i A env (Expr.unary UOp.paren (Expr.nary op es2) :: rest) =
+            g (bsum g i A env es2) (bsum g i A env rest) := by
+          simp only [bsum, List.foldr]
+          rw [tv_nested h env es2 hl hb2]
+          rfl
+        rw [this, h.assoc]
+      · exact .inr ⟨hr, List.mem_cons_of_mem _ hm⟩
+    | none =>
+    by_cases hc : isConst e = true
+    · cases e with
+      | const c =>
+        obtain ⟨b, rfl⟩ := isB_const (hb _ (List.mem_cons_self ..))
+        rw [commGo_const] at hgo
+        simp only [h.hz, h.hid, Option.some.injEq, Val.bool.injEq] at hgo
+        by_cases hbz : (!i) = b
+        · simp only [hbz, if_true] at hgo
+          cases hgo
+          subst hbz
+          exact .inr ⟨rfl, List.mem_cons_self ..⟩
+        · have hbi : b = i := by cases b <;> cases i <;> simp_all
+          subst hbi
+          simp only [hbz, if_false, if_true] at hgo
+          rcases ih pre res hnn' hb' hpre hgo with ⟨p', hr, hbp, hd⟩ | ⟨hr, hm⟩
+          · refine .inl ⟨p', hr, hbp, ?_⟩
+            rw [hd, bsum_append h, bsum_append h]
+            congr 1
+            simp only [bsum, List.foldr]
+            rw [tv_const, h.comm b, h.ident]
+          · exact .inr ⟨hr, List.mem_cons_of_mem _ hm⟩
+      | _ => simp [isConst] at hc
+    · have hc' : isConst e = false := by simpa using hc
+      rw [commGo_nonconst A op pre none [] rest e hc' hne] at hgo
+      simp only at hgo
+      have hpre2 : ∀ x ∈ pre ++ [e], isB A env x := by
+        intro x hx
+        rcases List.mem_append.mp hx with h1 | h1
+        · exact hpre x h1
+        · simp at h1; subst h1; exact hb _ (List.mem_cons_self ..)
+      rcases ih (pre ++ [e]) res hnn' hb' hpre2 hgo with ⟨p', hr, hbp, hd⟩ | ⟨hr, hm⟩
+      · refine .inl ⟨p', hr, hbp, ?_⟩
+        rw [hd]; simp
+      · exact .inr ⟨hr, List.mem_cons_of_mem _ hm⟩
+
+theorem commutative_bool_sound (h : BoolOp A op g i) (env : List Val) (es es' : List Expr)
+    (h2 : 2 ≤ es.length)
+    (hnn : ∀ e ∈ es, ∀ es2, nestedNary op e = some es2 →
+      2 ≤ es2.length ∧ ∀ x ∈ es2, isB A env x)
+    (hb : ∀ e ∈ es, isB A env e)
+    (hf : commutative A op es = .ok es') :
+    eval A env (wrapN op es') = eval A env (.nary op es) := by
+  have hne : es ≠ [] := by intro hh; subst hh; simp at h2
+  rw [h.hev env es hne hb]
+  simp only [commutative] at hf
+  cases hgo : commGo A op [] none [] es with
+  | error x => simp [hgo] at hf
+  | ok res =>
+    rcases commGo_bool h env es [] res hnn hb (fun _ hx => by cases hx) hgo with
+      ⟨p', hr, hbp, hd⟩ | ⟨hr, hm⟩
+    · subst hr
+      simp only [List.nil_append] at hd
+      rw [← hd]
+      simp only [hgo] at hf
+      match p', hbp, hf with
+      | [], _, hf =>
+        simp only [h.hid] at hf
+        cases hf
+        simp [wrapN, eval, bsum]
+      | [e], hbp, hf =>
+        simp only [h.hid] at hf
+        cases hf
+        rw [wrapN_two _ _ (by simp), h.hev env _ (by simp)]
+        · simp only [bsum, List.foldr, tv_const, h.ident]
+        · intro x hx
+          simp at hx
+          rcases hx with hx | hx
+          · subst hx; exact hbp _ (List.mem_cons_self ..)
+          · subst hx; exact ⟨i, rfl⟩
+      | a :: b :: t, hbp, hf =>
+        cases hf
+        rw [wrapN_two _ _ (by simp), h.hev env _ (by simp) hbp]
+    · subst hr
+      simp only [hgo] at hf
+      cases hf
+      rw [bsum_absorb h env es hm]
+      simp [wrapN, eval]
+
+end boolcomm
+
+/-- `and` / `or` with operands that all evaluate to booleans -/
+theorem fNary_andor_sound (A : Arith) (op : NOp) (hop : op = .and ∨ op = .or)
+    (env : List Val) (es : List Expr) (e' : Expr) (h2 : 2 ≤ es.length)
+    (hnn : ∀ e ∈ es, ∀ es2, nestedNary op e = some es2 →
+      2 ≤ es2.length ∧ ∀ x ∈ es2, ∃ b, eval A env x = some (.bool b))
+    (hb : ∀ e ∈ es, ∃ b, eval A env e = some (.bool b))
+    (hf : fNary A op es = .ok e') : eval A env e' = eval A env (.nary op es) := by
+  match es, h2 with
+  | e0 :: e1 :: rest, h2 =>
+    rcases hop with rfl | rfl
+    · simp only [fNary] at hf
+      cases hc : commutative A .and (e0 :: e1 :: rest) with
+      | error x => simp [hc] at hf
+      | ok es' =>
+        rw [hc] at hf
+        rw [fNary_match _ _ _ hf]
+        exact commutative_bool_sound (and_boolOp A) env _ es' h2 hnn hb hc
+    · simp only [fNary] at hf
+      cases hc : commutative A .or (e0 :: e1 :: rest) with
+      | error x => simp [hc] at hf
+      | ok es' =>
+        rw [hc] at hf
+        rw [fNary_match _ _ _ hf]
+        exact commutative_bool_sound (or_boolOp A) env _ es' h2 hnn hb hc
 
 end Gsu.LangFold
